@@ -107,18 +107,26 @@ InitCase(c) ==
     /\ log = <<>>
     /\ status = -1
 
+\* the graphs on n modules of the enumeration (filtered once per n, not once per listing)
+DepGraphs(n)  == {d \in [1..n -> AdjSeqs(n)] : SelfLoops \/ \A m \in 1..n : m \notin Range(d[m])}
+AntiGraphs(n, d) ==
+    IF WithAnti
+    THEN {a \in [1..n -> {SortedSeq(S) : S \in SUBSET (1..n)}] :
+             \A m \in 1..n : m \notin Range(a[m]) /\ Range(a[m]) \cap Range(d[m]) = {}}
+    ELSE {NoAnti(n)}
+MissingChoices(n, d, a) ==
+    {{}} \cup (IF WithMissing THEN {{m} : m \in {y \in 1..n : d[y] = <<>> /\ a[y] = <<>>}} ELSE {})
+
 Init ==
     IF Source = "file"
     THEN \E k \in 1..Len(FileCases) : InitCase(FileCase(FileCases[k]))
     ELSE \E n \in 1..MaxN :
-         \E d \in [1..n -> AdjSeqs(n)] :
-         \E a \in (IF WithAnti THEN [1..n -> {SortedSeq(S) : S \in SUBSET (1..n)}] ELSE {NoAnti(n)}) :
+         \E d \in DepGraphs(n) :
+         \E a \in AntiGraphs(n, d) :
          \E l \in Listings(n) :
-         \E x \in {{}} \cup (IF WithMissing THEN {{m} : m \in {y \in 1..n : d[y] = <<>> /\ a[y] = <<>>}} ELSE {}) :
-            /\ SelfLoops \/ \A m \in 1..n : m \notin Range(d[m])
-            /\ \A m \in 1..n : m \notin Range(a[m]) /\ Range(a[m]) \cap Range(d[m]) = {}
-            /\ LET c == [n |-> n, deps |-> d, anti |-> a, backend |-> {}, list |-> l, missing |-> x]
-               IN AllPulledIn(c) /\ InitCase(c)
+         \E x \in MissingChoices(n, d, a) :
+            LET c == [n |-> n, deps |-> d, anti |-> a, backend |-> {}, list |-> l, missing |-> x]
+            IN AllPulledIn(c) /\ InitCase(c)
 
 (* ------------------------------ helpers ------------------------------ *)
 
